@@ -13,7 +13,7 @@ import os, sys, json, tempfile, shutil
 import vlib, e2e, sync_e2e
 
 THEOREMS = ['C02_source_only_read', 'C02_read_only_changes_nothing', 'C02_through_needs_link', 'C02_clean_run_confined',
-            'C02_every_run_confined', 'C02_every_run_confined_executable', 'C02_no_run_goes_through_a_link', 'C02_executable_never_through', 'C02_dry_run_confined', 'C02_blocked_refused', 'C02_failed_delete_blocks', 'C02_blocked_stays', 'C02_src_sites_read_only', 'C02_walked_never_through']
+            'C02_every_run_confined', 'C02_every_run_confined_executable', 'C02_no_run_goes_through_a_link', 'C02_executable_never_through', 'C02_dry_run_confined', 'C02_blocked_refused', 'C02_failed_delete_blocks', 'C02_blocked_stays', 'C02_src_sites_read_only', 'C02_walked_never_through', 'C02_spec_untouched']
 
 READ_ONLY = {'SetRoot', 'GetEntries', 'GetFileContent', 'Marker', 'Shutdown', 'ProfilingTimeSync'}
 
@@ -176,6 +176,9 @@ def check(run):
                 run.fail('C02: ' + bad, {'scenario': sc.to_json(), 'text': im['text'][-800:]})
             elif o.mismatch and sc.placement == 'LL':
                 run.broke('correspondence', 'e2e', json.dumps({'scenario': sc.to_json(), 'mismatch': o.mismatch})[:2500])
+        # spec files with several syncs: a root that is only ever a source is never changed
+        import spec_e2e
+        spec_e2e.family(run, binary, jbin, base, 30 if quick else 1500, rng, 'C02')
     finally:
         shutil.rmtree(base, ignore_errors=True)
     return run.finish(search=None)
